@@ -863,6 +863,32 @@ def extract(repo):
     fn = _fn(k.ds, "__len__")
     if [_u(s) for s in _body(fn)] != ["return self.len()"]:
         raise ExtractError("DataSet.__len__: unexpected body")
+    # the other read paths: `__array__` (`return self._read_data()[:]`) and `read_direct` (`data[:] = self._read_data()`)
+    def read_call(cname, node):
+        c = Ctx(cname, {"self": ("ds", "self")})
+        if not (isinstance(node, ast.Call) and _u(node.func) == "self._read_data"):
+            c.fail(node, "not a call of self._read_data")
+        lname, spec, _ = CALLS["self._read_data"]
+        terms, binds = call_args(c, node, spec, k.defaults[lname])
+        if binds:
+            c.fail(node, "argument that may raise")
+        return "%s self %s" % (lname, " ".join(terms))
+
+    def is_full(sl):
+        return isinstance(sl, ast.Slice) and sl.lower is None and sl.upper is None and sl.step is None
+    b = _body(_fn(k.ds, "__array__"))
+    if not (len(b) == 1 and isinstance(b[0], ast.Return) and isinstance(b[0].value, ast.Subscript)
+            and is_full(b[0].value.slice)):
+        raise ExtractError("DataSet.__array__: expected `return self._read_data()[:]`")
+    ds_array = read_call("DataSet.__array__", b[0].value.value)
+    fn = _fn(k.ds, "read_direct")
+    k.expect_params(fn, ["data"])
+    b = _body(fn)
+    if not (len(b) == 1 and isinstance(b[0], ast.Assign) and len(b[0].targets) == 1
+            and isinstance(b[0].targets[0], ast.Subscript) and _u(b[0].targets[0].value) == "data"
+            and is_full(b[0].targets[0].slice)):
+        raise ExtractError("DataSet.read_direct: expected `data[:] = self._read_data()`")
+    ds_read_direct = read_call("DataSet.read_direct", b[0].value)
     dar, calib_pre, calib_post = k.da_read_data()
     app = k.ds_append()
     rules, between, seq = k.create_rules()
@@ -906,6 +932,10 @@ def extract(repo):
     d("`DataSet.write_direct(self, data)`", "dsWriteDirect (self : DArr) (data : Arr) : Except IoErr DArr", dswd)
     d("`DataSet.__setitem__(self, index, value)`", "dsSetItem (self : DArr) (index : IndexArg) (value : Arr) : Except IoErr DArr", dsset)
     d("`DataSet.__getitem__(self, index)`", "dsGetItem (self : DArr) (index : IndexArg) : Except IoErr (NdArray Elem)", dsget)
+    d("`DataSet.__array__(self)` (`np.array(da)`): the array that is returned (`[:]` of a NumPy array is the array)",
+      "dsArray (self : DArr) : Except IoErr (NdArray Elem)", ds_array)
+    d("`DataSet.read_direct(self, data)`: what is copied into the caller's buffer (`data[:] = …`)",
+      "dsReadDirect (self : DArr) : Except IoErr (NdArray Elem)", ds_read_direct)
     d("`DataSet.append(self, data, axis=0)`", "dsAppend (self : DArr) (data : Arr) (axis : Int) : Run", app)
     d("`Block.create_data_array`: the dtype / shape / data rules (`None` = argument not given)",
       "createRules (dtype : Option DTypeArg) (shape : Option (List Int)) (data : Option Arr) :\n"
